@@ -60,6 +60,10 @@ def main():
         print(f"MACHINERY-FAILURE property={a.prop}: {e}", file=sys.stderr)
         traceback.print_exc()
         return 2
+    except Exception as e:  # noqa: BLE001 - anything unforeseen is a failure of the machinery, never a finding
+        print(f"MACHINERY-FAILURE property={a.prop}: unexpected {type(e).__name__}: {e}", file=sys.stderr)
+        traceback.print_exc()
+        return 2
     return rep.finish()
 
 
